@@ -144,7 +144,14 @@ Fixpoint readHTML_loop (r : bytes) (l : lexer) (out : bytes) : lexer * bytes :=
     let '(areBr, escBr) := areBracesToken l in
     if areBr || isDir then (l, out) else
     let out1 := if escDir || escBr then tl out else out in
-    readHTML_loop r' (readChar l) (cur l :: out1)
+    if escBr then
+      (* both braces are text *)
+      let l1 := readChar l in
+      match r' with
+      | _ :: r'' => readHTML_loop r'' (readChar l1) (cur l1 :: cur l :: out1)
+      | [] => (readChar l1, cur l1 :: cur l :: out1)   (* unreachable: "{{" has two bytes *)
+      end
+    else readHTML_loop r' (readChar l) (cur l :: out1)
   end.
 
 Definition readHTML (l : lexer) : bytes * lexer :=
